@@ -18,6 +18,8 @@ import AmrK.HypsModel
 import AmrK.HeaderRender
 import AmrK.TasteWFModel
 import AmrK.Names
+import AmrK.MaxMins
+import AmrK.TasteCoords
 import AmrK.CellHRewrite
 import AmrK.HeaderRewrite
 import AmrK.Meets
@@ -251,6 +253,27 @@ def opRewriteHeader (j : Json) : Except String Json := do
     let H := rewriteOf fl own m coord names
     return Json.mkObj [("status", "ok"), ("hex", toJson (hex (render H))), ("good", toJson H.goodB)]
 
+open Header in
+/-- the 2D header of a plotfile-format slice, derived from the 3D input header -/
+def opSliceHeader (j : Json) : Except String Json := do
+  let text := unhex (← (← j.getObjVal? "hex").getStr?)
+  let limit : Option Int := (j.getObjValAs? Int "limit").toOption
+  let names ← strList (← j.getObjVal? "names")
+  let coord := Py.ofString (← (← j.getObjVal? "coord").getStr?)
+  let cx ← (← j.getObjVal? "cx").getNat?
+  let cy ← (← j.getObjVal? "cy").getNat?
+  let sel ← (← (← j.getObjVal? "selected").getArr?).toList.mapM natList
+  let fls ← (← j.getObjVal? "floats").getArr?
+  let table ← fls.toList.mapM fun p => do
+    let a ← p.getArr?
+    if h : a.size = 2 then return (Py.ofString (← a[0].getStr?), Py.ofString (← a[1].getStr?)) else throw "pair"
+  let fl : Bytes → Bytes := fun t => (table.lookup t).getD t
+  match parse text limit with
+  | .refused why => return Json.mkObj [("status", "refused"), ("why", toJson why)]
+  | .ok m =>
+    let H := slice2D fl m coord names cx cy sel
+    return Json.mkObj [("status", "ok"), ("hex", toJson (hex (render H))), ("good", toJson H.goodB)]
+
 /-! ### well-formedness certificate of a whole plotfile (hypothesis of `Taste.tastePlt_of_wfB`) -/
 def rowsOfJson (j : Json) : Except String (List Taste.BoxRow) := do
   (← j.getArr?).toList.mapM fun r => do
@@ -419,6 +442,18 @@ def opPestleCall (j : Json) : Except String Json := do
   return Json.mkObj [("integral", res), ("spec", ratJ (integralSpec sel)), ("nlevels", toJson sel.length),
     ("known", toJson (names.contains field)), ("aligned", toJson (alignedAllB (boxRez true sel) sel))]
 
+/-- the min / max tables of a level header as the reader exposes them per field -/
+def opMaxMins (j : Json) : Except String Json := do
+  let text := unhex (← (← j.getObjVal? "hex").getStr?)
+  let n ← (← j.getObjVal? "n").getNat?
+  let names ← strList (← j.getObjVal? "names")
+  let lines := Py.splitOn 10 text
+  match MaxMins.readTables n (lines.drop (5 + n + 2 + n)) with
+  | none => return Json.mkObj [("status", "raises")]
+  | some (mins, maxs) =>
+    let enc := fun (t : List (Bytes × List Bytes)) => toJson (t.map fun p => (str p.1, p.2.map str))
+    return Json.mkObj [("status", "ok"), ("mins", enc (MaxMins.byField names mins)), ("maxs", enc (MaxMins.byField names maxs))]
+
 /-- colander's level header, derived from the input's -/
 def opRewriteCellH (j : Json) : Except String Json := do
   let text := unhex (← (← j.getObjVal? "hex").getStr?)
@@ -450,6 +485,27 @@ def opMeets (j : Json) : Except String Json := do
       return Meets.meets G pos (← ratOfJson a[0]) (← ratOfJson a[1])
     else throw "box"
   return Json.mkObj [("meets", toJson flags)]
+
+/-- taste's box-coordinate validation: per request the directions of one level, per box its index range and bounds -/
+def opCoordsOK (j : Json) : Except String Json := do
+  let axes ← (← j.getObjVal? "axes").getArr?
+  let ax ← axes.toList.mapM fun a => do
+    return (← ratOfJson (← a.getObjVal? "lo"), ← ratOfJson (← a.getObjVal? "hi"), ← ratOfJson (← a.getObjVal? "dx"),
+      ← (← a.getObjVal? "n").getNat?)
+  let boxes ← (← j.getObjVal? "boxes").getArr?
+  let res ← boxes.toList.mapM fun b => do
+    let i0 ← intListJ (← b.getObjVal? "i0")
+    let i1 ← intListJ (← b.getObjVal? "i1")
+    let blo ← (← (← b.getObjVal? "blo").getArr?).toList.mapM ratOfJson
+    let bhi ← (← (← b.getObjVal? "bhi").getArr?).toList.mapM ratOfJson
+    let per := (List.range ax.length).map fun d =>
+      match ax[d]? with
+      | some (lo, hi, dx, n) => TasteCoords.axisOK lo hi dx n (i0.getD d 0) (i1.getD d 0) (blo.getD d 0) (bhi.getD d 0)
+      | none => none
+    return per
+  let flat := res.flatten
+  let verdict : String := if flat.any (· == none) then "raises" else if flat.all (· == some true) then "good" else "bad"
+  return Json.mkObj [("verdict", toJson verdict)]
 
 /-- the coordinate array of one axis of a slice / flattened grid -/
 def opCoords (j : Json) : Except String Json := do
@@ -572,10 +628,13 @@ partial def loop (h : IO.FS.Stream) (out : IO.FS.Stream) (files : Std.HashMap St
         | "pestle" => opPestle j
         | "pestle_call" => opPestleCall j
         | "coords" => opCoords j
+        | "coords_ok" => opCoordsOK j
         | "meets" => opMeets j
         | "rewrite_cellh" => opRewriteCellH j
+        | "maxmins" => opMaxMins j
         | "combine_cellh" => opCombineCellH j
         | "rewrite_header" => opRewriteHeader j
+        | "slice_header" => opSliceHeader j
         | "header" => opHeader j
         | "colander" => opColander j
         | "combine" => opCombine j
